@@ -35,6 +35,9 @@ pub struct TxCfg {
     /// congestion controller: 0 none (the window is the only limit), 1 Reno, 2 CUBIC. (With the
     /// reno/cubic cargo features on, a fresh socket defaults to CUBIC, so this is set explicitly.)
     pub cc: u8,
+    /// (server only) an earlier peer's SYN (MSS 1460, window scale 7) was answered and then
+    /// reset in SYN-RECEIVED: the socket went back to LISTEN by itself, without any API call
+    pub synrcvd_rst: bool,
 }
 
 #[derive(Clone, Debug, PartialEq)]
@@ -183,6 +186,16 @@ impl Harness for Tx {
         }
         if cfg.server {
             w.sock().listen(80).unwrap();
+            if cfg.synrcvd_rst {
+                let q = p.wrapping_add(0x1357_9bdf);
+                let o0 = [2u8, 4, 5, 180, 3, 3, 7, 1];
+                w.ingress_single(build_seg(q, None, wc::TCP_SYN, 1000, &o0, &[]));
+                w.egress();
+                assert!(w.state() == State::SynReceived, "earlier SYN not taken");
+                w.ingress_single(build_seg(q.wrapping_add(1), None, wc::TCP_RST, 0, &[], &[]));
+                w.egress();
+                assert!(w.state() == State::Listen, "RST in SYN-RECEIVED did not return the socket to LISTEN: {}", w.state());
+            }
             std::mem::swap(&mut t.w, &mut w);
             t.deliver(build_seg(p, None, wc::TCP_SYN, 1000, &opts, &[]));
             let iss = t.mon.iss.unwrap_or(0);
@@ -347,7 +360,7 @@ impl Harness for Tx {
 pub fn tx_configs(tier: Tier) -> Vec<(TxCfg, usize)> {
     let (mut d, dbig) = if tier == Tier::Quick { (6, 2) } else { (8, 3) };
     if let Ok(x) = std::env::var("TX_D") { d = x.parse().unwrap(); }
-    let base = TxCfg { name: "base", tx: 64, rx: 64, len: 40, chunk: 16, peer_mss: Some(100), peer_ws: None, server: true, mtu: 1500, peer_isn: 0xffff_fff0, reuse: false, ts: false, peer_ts: false, bp: false, cc: 0 };
+    let base = TxCfg { name: "base", tx: 64, rx: 64, len: 40, chunk: 16, peer_mss: Some(100), peer_ws: None, server: true, mtu: 1500, peer_isn: 0xffff_fff0, reuse: false, ts: false, peer_ts: false, bp: false, cc: 0, synrcvd_rst: false };
     vec![
         (base.clone(), d),
         (TxCfg { name: "mss-absent", peer_mss: None, len: 30, chunk: 30, ..base.clone() }, d),
@@ -364,6 +377,9 @@ pub fn tx_configs(tier: Tier) -> Vec<(TxCfg, usize)> {
         // largest window: the peer's window field must be read with the PEER's shift
         (TxCfg { name: "bigrx-peer-ws0-len2500", rx: 70000, tx: 4096, len: 2500, chunk: 2500, peer_mss: Some(536), peer_ws: Some(0), ..base.clone() }, dbig + 1),
         (TxCfg { name: "bigrx-client-peer-ws1-len2500", rx: 300000, tx: 4096, len: 2500, chunk: 2500, peer_mss: Some(536), peer_ws: Some(1), server: false, ..base.clone() }, dbig + 1),
+        // the listener saw another peer's SYN before (reset in SYN-RECEIVED, no API call in between)
+        (TxCfg { name: "synrcvd-rst-then-mss-absent", synrcvd_rst: true, peer_mss: None, tx: 2048, len: 1300, chunk: 1300, ..base.clone() }, d.min(5)),
+        (TxCfg { name: "synrcvd-rst-then-bigrx-no-ws", synrcvd_rst: true, rx: 70000, len: 20, chunk: 20, ..base.clone() }, dbig),
         // congestion-controlled senders (the congestion window limits below the peer's window)
         (TxCfg { name: "reno", cc: 1, tx: 256, len: 200, chunk: 100, peer_mss: Some(48), ..base.clone() }, d),
         (TxCfg { name: "cubic", cc: 2, tx: 256, len: 200, chunk: 100, peer_mss: Some(48), ..base.clone() }, d),
